@@ -277,7 +277,8 @@ static Verdict m_apply(MState& M, const Op& o, const int* ty, std::string& why)
     }
     else if(ki == K_SV)
     {
-      // SparseVector::convert = sort() + deep clone
+      // SparseVector::convert = sort() + deep clone; sort() reads _scalar_index[4] of the target
+      if(sj.present && sj.si.empty()) v = V_SUSPECT;
       if(!sj.present) m_default(sj, tj);
       if(ti == tj) m_clone_same(M, sj, tj, si, int(CloneMode::Deep));
       else
@@ -916,6 +917,7 @@ struct Harness
       }
       frontier.swap(next);
     }
+    if(frontier.empty()) c.count("cases_with_closed_state_space");   // no new state at the last level: the search is complete for any depth
   }
 };
 
@@ -931,7 +933,7 @@ int main(int argc, char** argv)
     "(per slot: _foreign_memory, _scalar_index, per array chunk class + offset + MemoryPool reference count + size + defined contents; unreferenced chunks). "
     "Non-trivial = every case (all start with a container that owns arrays); hashed by (types, start).";
   spec.bounds_quick = "all histories up to depth 4 beyond the start configuration; 3 slots";
-  spec.bounds_thorough = "all histories up to depth 5 beyond the start configuration; 3 slots";
+  spec.bounds_thorough = "all histories up to depth 8 beyond the start configuration (counter cases_with_closed_state_space = cases whose reachable state space closed before the bound, i.e. complete for any depth); 3 slots";
   spec.assumptions = {
     "reference model written in the harness: map array-id -> (#owning containers, element count, contents), op semantics transcribed from the documented clone modes / convert / move / range / layout contracts",
     "borrower contract: a ranged vector (_foreign_memory) holds no reference; histories that release the lender's array while a borrower is alive are excluded and counted",
@@ -971,7 +973,7 @@ int main(int argc, char** argv)
     add(T_CSR_D64, T_CSR_D64, T_CSR_F64);
     add(T_BCSR_D64, T_BCSR_D64, T_BCSR_D64);
     add(T_SV_D64, T_SV_D64, T_SV_D64);
-    const int depth = c.thorough ? 5 : 4;
+    const int depth = c.thorough ? 8 : 4;
     for(const Case& cs : cases)
     {
       if(!c.want()) continue;
